@@ -11,6 +11,7 @@ import (
 
 	"verif/internal/h"
 	"verif/internal/jv"
+	"verif/internal/kinx"
 	"verif/internal/refschema"
 	"verif/internal/schemagen"
 )
@@ -20,6 +21,10 @@ type Case struct {
 	Schema string `json:"schema"` // raw JSON schema text
 	Value  string `json:"value"`  // JSON text of the value
 	Rep    string `json:"rep"`    // float64 | number (json.Number tree, as the body decoder yields)
+	// Defs: JSON object of component schemas the schema refers to ("" = none). The schema is then
+	// loaded inside a document so that its references are resolved; recursion always passes through
+	// items, properties or additionalProperties, i.e. it is well-founded on the value.
+	Defs string `json:"defs,omitempty"`
 }
 
 func TestMain(m *testing.M) { h.Main(m, "C01") }
@@ -38,24 +43,41 @@ var (
 	lastKin        *openapi3.Schema
 	lastErr        error
 	lastKw         int
+	lastDefs       map[string]any
 )
 
-func load(text string) (map[string]any, *openapi3.Schema, int, error) {
-	if text == lastSchemaText && lastRaw != nil {
-		return lastRaw, lastKin, lastKw, lastErr
+func load(text, defs string) (map[string]any, *openapi3.Schema, int, map[string]any, error) {
+	if text+"|"+defs == lastSchemaText && lastRaw != nil {
+		return lastRaw, lastKin, lastKw, lastDefs, lastErr
 	}
 	var raw map[string]any
 	if err := json.Unmarshal([]byte(text), &raw); err != nil {
 		panic("harness: bad schema text: " + err.Error())
 	}
+	if defs != "" {
+		var dm map[string]any
+		if err := json.Unmarshal([]byte(defs), &dm); err != nil {
+			panic("harness: bad defs text: " + err.Error())
+		}
+		comps := jv.Clone(dm).(map[string]any)
+		comps["Root--"] = raw
+		doc, err := kinx.Load(kinx.Doc(map[string]any{}, map[string]any{"schemas": comps}))
+		var ks *openapi3.Schema
+		if err == nil {
+			ks = doc.Components.Schemas["Root--"].Value
+		}
+		lastSchemaText, lastRaw, lastKin, lastErr, lastKw, lastDefs = text+"|"+defs, raw, ks, err, refschema.KeywordCount(raw), dm
+		return raw, ks, lastKw, dm, err
+	}
+	lastDefs = nil
 	var ks openapi3.Schema
 	err := json.Unmarshal([]byte(text), &ks)
-	lastSchemaText, lastRaw, lastKin, lastErr, lastKw = text, raw, &ks, err, refschema.KeywordCount(raw)
-	return raw, &ks, lastKw, err
+	lastSchemaText, lastRaw, lastKin, lastErr, lastKw = text+"|", raw, &ks, err, refschema.KeywordCount(raw)
+	return raw, &ks, lastKw, nil, err
 }
 
 func check(c Case) (o h.Outcome) {
-	raw, ks, nkw, err := load(c.Schema)
+	raw, ks, nkw, defs, err := load(c.Schema, c.Defs)
 	if err != nil {
 		o.Fail("schema-unmarshal-error", "well-formed schema does not unmarshal: %v", err)
 		return
@@ -65,7 +87,8 @@ func check(c Case) (o h.Outcome) {
 	if c.Rep == "number" {
 		kv = jv.ToNumberTree(v)
 	}
-	ref := refschema.ValidTrace(raw, v, refschema.Mode{})
+	mode := refschema.Mode{Defs: defs}
+	ref := refschema.ValidTrace(raw, v, mode)
 	if ref.Grey {
 		o.Discard = true
 		return
@@ -87,12 +110,18 @@ func check(c Case) (o h.Outcome) {
 		o.Class("verdict:accept:%s", c.Rep)
 		o.NonTrivial = nkw >= 2 && len(ref.Touched) > 0
 	} else {
-		ds := refschema.Deciders(raw, v, refschema.Mode{})
+		ds := refschema.Deciders(raw, v, mode)
 		for _, d := range ds {
 			o.Class("reject-decider:%s:depth%d", d.Keyword, d.Depth)
 		}
 		o.Class("verdict:reject:%s", c.Rep)
 		o.NonTrivial = nkw >= 2 && len(ds) > 0
+	}
+	if defs != nil {
+		// recursive schemas: non-trivial when the value makes the schema meet itself again
+		d := jv.Depth(v)
+		o.Class("recursive:%s:valid=%v:value-depth=%d", recName(c.Defs), ref.Valid, d)
+		o.NonTrivial = d >= 2
 	}
 	if kinOK != ref.Valid {
 		dir := "accepts-invalid"
@@ -134,6 +163,11 @@ func errField(err error) string {
 // sampled part
 
 func gen(t *rapid.T) Case {
+	if rapid.IntRange(0, 5).Draw(t, "recursive") == 0 {
+		sh := rapid.SampledFrom(recShapes).Draw(t, "recshape")
+		v := recValue(t, rapid.IntRange(1, 4).Draw(t, "recdepth"))
+		return Case{Schema: sh.root, Defs: sh.defs, Value: jv.Canon(v), Rep: rapid.SampledFrom([]string{"float64", "number"}).Draw(t, "rep")}
+	}
 	depth := 3
 	if h.Thorough() {
 		depth = rapid.IntRange(2, 5).Draw(t, "depth")
@@ -230,7 +264,104 @@ var enumValues = []string{
 	`{}`, `{"a":1}`, `{"a":null}`, `{"b":1}`, `{"a":1,"b":2}`, `{"a":"x","b":null}`, `{"a":{"a":1}}`, `{"a":3,"c":[1]}`, `{"c":null}`, `{"a":"ab"}`, `{"a":true,"b":"a","c":1}`,
 }
 
+// ---------------------------------------------------------------------------------------
+// recursive schemas
+
+type recShape struct{ name, root, defs string }
+
+var recShapes = []recShape{
+	{"NestedList", `{"$ref":"#/components/schemas/NestedList"}`, `{"NestedList":{"type":"array","items":{"$ref":"#/components/schemas/NestedList"}}}`},
+	{"Leaves", `{"$ref":"#/components/schemas/Leaves"}`, `{"Leaves":{"oneOf":[{"type":"string"},{"type":"array","items":{"$ref":"#/components/schemas/Leaves"}}]}}`},
+	{"Tree", `{"$ref":"#/components/schemas/Tree"}`, `{"Tree":{"type":"object","required":["v"],"properties":{"v":{"type":"integer"},"kids":{"type":"array","maxItems":2,"items":{"$ref":"#/components/schemas/Tree"}}}}}`},
+	{"Map", `{"$ref":"#/components/schemas/Map"}`, `{"Map":{"type":"object","additionalProperties":{"$ref":"#/components/schemas/Map"}}}`},
+	{"Mutual", `{"$ref":"#/components/schemas/A"}`, `{"A":{"type":"array","maxItems":2,"items":{"$ref":"#/components/schemas/B"}},"B":{"anyOf":[{"type":"integer"},{"$ref":"#/components/schemas/A"}]}}`},
+	{"Linked", `{"$ref":"#/components/schemas/Linked"}`, `{"Linked":{"type":"object","properties":{"v":{"type":"integer"},"next":{"$ref":"#/components/schemas/Linked"}},"additionalProperties":false}}`},
+	{"NotRec", `{"$ref":"#/components/schemas/NotRec"}`, `{"NotRec":{"type":"array","items":{"not":{"$ref":"#/components/schemas/NotRec"}}}}`},
+	{"AllOfItems", `{"allOf":[{"$ref":"#/components/schemas/NestedList"},{"maxItems":2}]}`, `{"NestedList":{"type":"array","items":{"allOf":[{"$ref":"#/components/schemas/NestedList"},{"maxItems":1}]}}}`},
+	{"TwoRoutes", `{"type":"array","items":{"$ref":"#/components/schemas/P"}}`, `{"P":{"type":"object","properties":{"l":{"$ref":"#/components/schemas/Q"},"r":{"$ref":"#/components/schemas/Q"}}},"Q":{"type":"array","items":{"$ref":"#/components/schemas/P"},"uniqueItems":true}}`},
+}
+
+func recName(defs string) string {
+	for _, sh := range recShapes {
+		if sh.defs == defs {
+			return sh.name
+		}
+	}
+	return "other"
+}
+
+func recValue(t *rapid.T, depth int) any {
+	if depth <= 0 {
+		return rapid.SampledFrom([]any{"a", 1.0, 2.5, true, nil, []any{}, map[string]any{}}).Draw(t, "leaf")
+	}
+	switch rapid.IntRange(0, 5).Draw(t, "kind") {
+	case 0:
+		return recValue(t, 0)
+	case 1, 2, 3:
+		n := rapid.IntRange(0, 3).Draw(t, "len")
+		out := make([]any, n)
+		for i := range out {
+			out[i] = recValue(t, depth-1)
+		}
+		return out
+	default:
+		obj := map[string]any{}
+		for _, k := range []string{"v", "kids", "next", "l", "r", "k"} {
+			if rapid.IntRange(0, 2).Draw(t, "has"+k) == 0 {
+				if k == "v" && rapid.IntRange(0, 3).Draw(t, "vint") > 0 {
+					obj[k] = float64(rapid.IntRange(0, 3).Draw(t, "vval"))
+				} else {
+					obj[k] = recValue(t, depth-1)
+				}
+			}
+		}
+		return obj
+	}
+}
+
+// recValues: every value of nesting depth <= 2 over a small alphabet
+func recValues() []string {
+	leaves := []any{"a", 1.0, nil, []any{}, map[string]any{}}
+	level := func(prev []any) []any {
+		var out []any
+		for _, a := range prev {
+			out = append(out, []any{a}, map[string]any{"v": 1.0, "kids": []any{a}}, map[string]any{"next": a}, map[string]any{"k": a}, map[string]any{"l": a, "r": []any{a}},
+				map[string]any{"v": 1.0, "next": a})
+			for _, b := range prev {
+				out = append(out, []any{a, b})
+			}
+		}
+		return out
+	}
+	l1 := level(leaves)
+	all := append(append([]any{}, leaves...), l1...)
+	l2 := level(l1)
+	// the second level is large: keep the arrays and every third of the rest
+	for i, v := range l2 {
+		if _, isArr := v.([]any); isArr || i%3 == 0 {
+			all = append(all, v)
+		}
+	}
+	out := make([]string, len(all))
+	for i, v := range all {
+		out[i] = jv.Canon(v)
+	}
+	return out
+}
+
 func enumerate(shard, nshards int, yield func(Case)) {
+	{
+		vals := recValues()
+		for i, sh := range recShapes {
+			for j, v := range vals {
+				if (i+j)%nshards != shard {
+					continue
+				}
+				yield(Case{Schema: sh.root, Defs: sh.defs, Value: v, Rep: "float64"})
+				yield(Case{Schema: sh.root, Defs: sh.defs, Value: v, Rep: "number"})
+			}
+		}
+	}
 	insts := instances()
 	idx := 0
 	emit := func(s map[string]any) {
